@@ -9,14 +9,14 @@ produced here by the functions the theorems quantify over: `Spec.rotl`, `recase`
   circ name site skip oh dir seq rots       : circular part, rotations `rots` = "all" | "k1,k2,…"
   lin  name site skip oh dir seq            : linear part
   case name site skip oh dir circ seq mask  : seq vs recase mask seq
-  hist name site skip oh seq                : the SAME stored string through a fixed history of calls
+  hist name site skip oh seq [order]        : the SAME stored string through a fixed history of calls
                                               (circular/linear, directional or not) in one process; correspondence
                                               and judgement are decided PER STEP: only the steps whose call lies
                                               inside the quantifier count, the others are drift (`step-drift`)
 `name` = a built-in enzyme (geometry taken from the REBASE-pinned spec table, the request then
 also goes through CutWithEnzymeByName) or "" for a custom enzyme given by site/skip/oh
 (any other name: custom enzyme + a ByName call that must be refused).
-Request:  cut name site rcsite skip oh dir circ seq…   |   cuthist name site rcsite skip oh seq
+Request:  cut name site rcsite skip oh dir circ seq…   |   cuthist name site rcsite skip oh seq steps   (steps = cd,ld,cn,… : circular/linear, directional/non-directional)
 Reply:    ok (direct byname)…   one pair of fields per sequence / call, each `ok|fwd,seq,rev;…` | panic | err | -
 Correspondence compares each fragment list as a MULTISET (the property's observation); a reply that has
 the model's fragments in another order is tagged `order-differs` in the class, not counted as a disagreement.
@@ -61,26 +61,34 @@ structure Case where
   dir : Bool
   circ : Bool
   seqs : List Str
+  steps : List (Bool × Bool) := []
 
 def rotsOf (seq : Str) (rots : String) : Option (List Nat) :=
   if rots == "all" then some (List.range seq.length)
   else (rots.splitOn ",").mapM fun t => if t.isEmpty then none else t.toNat?
 
-/-- the fixed call history of a `hist` case: (circular, directional) -/
-def history : List (Bool × Bool) :=
-  [(true, true), (false, true), (true, true), (false, false), (false, true), (true, false), (true, true)]
+/-- the call histories of a `hist` case, (circular, directional) per step.  Order 0 starts with the
+directional calls; order 1 STARTS with the non-directional ones, so that state leaking from a
+non-directional call into a later directional call of the same stored string is exercised. -/
+def history (order : String) : List (Bool × Bool) :=
+  if order == "1" then
+    [(true, false), (true, true), (false, false), (false, true), (true, true), (false, true), (true, false)]
+  else
+    [(true, true), (false, true), (true, true), (false, false), (false, true), (true, false), (true, true)]
 
 def parse (f : List String) : Option Case :=
   match f with
   | ["circ", name, site, skip, oh, dir, seq, rots] =>
     (rotsOf seq.toList rots).map fun ks =>
-      ⟨"circ", name, geometryOf name site skip oh, b dir, true, ks.map fun k => Spec.rotl k seq.toList⟩
+      ⟨"circ", name, geometryOf name site skip oh, b dir, true, ks.map fun k => Spec.rotl k seq.toList, []⟩
   | ["hist", name, site, skip, oh, seq] =>
-    some ⟨"hist", name, geometryOf name site skip oh, true, true, [seq.toList]⟩
+    some ⟨"hist", name, geometryOf name site skip oh, true, true, [seq.toList], history "0"⟩
+  | ["hist", name, site, skip, oh, seq, order] =>
+    some ⟨"hist", name, geometryOf name site skip oh, true, true, [seq.toList], history order⟩
   | ["lin", name, site, skip, oh, dir, seq] =>
-    some ⟨"lin", name, geometryOf name site skip oh, b dir, false, [seq.toList]⟩
+    some ⟨"lin", name, geometryOf name site skip oh, b dir, false, [seq.toList], []⟩
   | ["case", name, site, skip, oh, dir, circ, seq, mask] =>
-    some ⟨"case", name, geometryOf name site skip oh, b dir, b circ, [seq.toList, recase mask.toList seq.toList]⟩
+    some ⟨"case", name, geometryOf name site skip oh, b dir, b circ, [seq.toList, recase mask.toList seq.toList], []⟩
   | _ => none
 
 def render (f : List String) : List String :=
@@ -89,14 +97,14 @@ def render (f : List String) : List String :=
   | some c =>
     if c.kind == "hist" then
       ["cuthist", c.name, String.ofList c.g.site, String.ofList (rcSite c.g.site), toString c.g.skip, toString c.g.oh]
-        ++ c.seqs.map String.ofList
+        ++ c.seqs.map String.ofList ++ [",".intercalate (c.steps.map fun (ci, di) => (if ci then "c" else "l") ++ (if di then "d" else "n"))]
     else
     ["cut", c.name, String.ofList c.g.site, String.ofList (rcSite c.g.site), toString c.g.skip, toString c.g.oh,
      boolStr c.dir, boolStr c.circ] ++ c.seqs.map String.ofList
 
 def modelReply (c : Case) : List String :=
   if c.kind == "hist" then
-    "ok" :: history.flatMap fun (circ, dir) =>
+    "ok" :: c.steps.flatMap fun (circ, dir) =>
       [encOutcome (cutWithEnzyme (c.seqs.headD []) circ dir (enzymeOf c.name c.g)), "-"]
   else
   "ok" :: c.seqs.flatMap fun s =>
@@ -131,70 +139,95 @@ def judge (f out : List String) : Verdict :=
     let s0 := c.seqs.headD []
     let u0 := s0.map Char.toUpper
     let isBuiltin := (builtin.lookup c.name).isSome
+    let isHist := c.kind == "hist"
     let pairs := match out with | "ok" :: r => pairsOf r | _ => []
-    let shapeOk := pairs.length == (if c.kind == "hist" then history.length else c.seqs.length)
+    let modelPairs := match m with | "ok" :: r => pairsOf r | _ => []
+    let shapeOk := pairs.length == (if isHist then c.steps.length else c.seqs.length)
     -- the spec is evaluated through the array-backed reading function (`letterA_eq`: equal to `letter u0`)
     let arr := u0.toArray
     let w := letterA arr
     let n := arr.size
     let nsites := if c.circ then (sites w n c.g.site).length + (sites w n (rcSite c.g.site)).length
                   else (linSites w n c.g.site).length + (linSites w n (rcSite c.g.site)).length
-    let expected := if c.circ then digestW c.g w n else digestLinW c.g w n
-    let expectedLin := digestLinW c.g w n
-    -- a step of a history is inside the quantifier when it is directional and its topology's layout is;
-    -- the other steps (non-directional, cuts too close, coincident cuts …) are correspondence drift only
+    let expC := digestW c.g w n
+    let expL := digestLinW c.g w n
+    -- coincident forward/reverse cuts of a blunt cutter: the statement leaves the tie open, so a reply may
+    -- follow either resolution (`stretch` / `stretchAlt`; they agree on every other layout: tie_free_*)
+    let coinC := !noCoincident c.g w n
+    let coinL := !noCoincidentLin c.g w n
+    let altC := if coinC then digestAltW c.g w n else expC
+    let altL := if coinL then digestLinAltW c.g w n else expL
+    let exp : Bool → List (Str × Str × Str) := fun circ => if circ then expC else expL
+    let alt : Bool → List (Str × Str × Str) := fun circ => if circ then altC else altL
+    let expected := exp c.circ
+    let wf : Bool → Bool := fun circ => if circ then wfLayoutW c.g w n else wfLinearW c.g w n
+    let accept : Bool → List (Str × Str × Str) → Bool := fun circ a => a.isPerm (exp circ) || a.isPerm (alt circ)
     -- the quantifier speaks of sequences of bases: a stored string with anything but letters (digits, blanks,
     -- punctuation) is outside it - kept as a correspondence probe, drift only
     let lettersOnly := c.seqs.all fun s => s.all Char.isAlpha
-    let stepDom : Bool × Bool → Bool := fun (circ, dir) =>
-      dir && lettersOnly && (if circ then inQuantifierW c.g w n else inQuantifierLinW c.g w n)
+    -- a step of a history is inside the quantifier when it is directional and its topology's layout is;
+    -- the other steps (non-directional, cuts too close …) are correspondence drift only
+    let stepDom : Bool × Bool → Bool := fun (circ, dir) => dir && lettersOnly && wf circ
     let inDom := c.dir && lettersOnly && (c.name == "" || isBuiltin) &&
-      (if c.kind == "hist" then history.any stepDom
-       else if c.circ then inQuantifierW c.g w n else inQuantifierLinW c.g w n)
-    let modelPairs := match m with | "ok" :: r => pairsOf r | _ => []
+      (if isHist then c.steps.any stepDom else wf c.circ)
+    -- correspondence of one reply field with the model's: equal as multisets, or (coincident cuts only) the other reading
+    let fieldCorr : Bool → String → String → Bool := fun circ d md =>
+      sameField d md || (wf circ && (match decFragments d with
+        | some a => a.isPerm (alt circ)
+        | none => false))
     let corr :=
-      if c.kind == "hist" then
-        shapeOk && ((pairs.zip modelPairs).zip history).all fun (((d, _), (md, _)), h) => !stepDom h || sameField d md
-      else corrAll
+      if isHist then
+        shapeOk && ((pairs.zip modelPairs).zip c.steps).all fun (((d, _), (md, _)), h) => !stepDom h || fieldCorr h.1 d md
+      else corrAll || (inDom && shapeOk && (pairs.zip modelPairs).all fun ((d, nm), (md, mn)) =>
+        fieldCorr c.circ d md && (nm == mn || fieldCorr c.circ nm mn))
     let orderDiffers := corr && out != m && corrAll
-    let stepDrift := corr && !corrAll
-    -- coincident forward/reverse cuts (blunt cutters): outside the quantifier, correspondence only
-    let coincident := if c.circ then !noCoincident c.g w n else !noCoincidentLin c.g w n
+    let stepDrift := isHist && corr && !corrAll
+    let coincident := if c.circ then coinC else coinL
     let decoded := pairs.map fun (d, _) => decFragments d
     -- ByName must agree with the direct call for a built-in enzyme
-    let byNameOk := pairs.all fun (d, n) => if isBuiltin && c.kind != "hist" then sameField d n else true
+    let byNameOk := pairs.all fun (d, n) => if isBuiltin && !isHist then sameField d n else true
+    -- all replies (rotations of one plasmid) are the same multiset
+    let allSame := match decoded with
+      | some a :: rest => rest.all fun d => match d with | some b' => a.isPerm b' | none => false
+      | _ => decoded.isEmpty
     let j : Bool :=
       shapeOk && byNameOk &&
       (match c.kind with
        | "case" =>
          -- letter case is irrelevant: identical answers, and the geometry clause on both
          (match decoded with
-          | [some a, some b'] => a.isPerm b' && a.isPerm expected
+          | [some a, some b'] => a.isPerm b' && accept c.circ a
           | _ => false)
        | "lin" =>
          (match decoded with
-          | [some a] => a.isPerm expected && a.all fun (x, y, z) => isInfix (x ++ y ++ z) u0
+          | [some a] => accept false a && a.all fun (x, y, z) => isInfix (x ++ y ++ z) u0
           | _ => false)
        | "hist" =>
          -- every directional call of the history returns the spec's multiset for its topology
-         decoded.length == history.length &&
-         (decoded.zip history).all fun (d, (circ, dir)) =>
+         decoded.length == c.steps.length &&
+         (decoded.zip c.steps).all fun (d, (circ, dir)) =>
            !stepDom (circ, dir) || (match d with
-             | some a => a.isPerm (if circ then expected else expectedLin)
+             | some a => accept circ a
              | none => false)
        | _ =>
-         -- every rotation yields the spec's multiset for the cyclic word (hence the same one)
-         decoded.all fun d => match d with
-           | some a => a.isPerm expected
+         -- every rotation yields the spec's multiset for the cyclic word, and all rotations the SAME multiset
+         allSame && decoded.all fun d => match d with
+           | some a => accept true a
            | none => false)
+    let tieAlt := inDom && j && decoded.any fun d => match d with
+      | some a => !(a.isPerm expected) && !isHist
+      | none => false
     let enz := if isBuiltin then c.name else if c.name == "" then "custom" else "unknown"
     let cls := (if nsites == 0 then "triv:" else "") ++ c.kind ++ (if c.kind == "case" then (if c.circ then "C" else "L") else "")
                 ++ "/" ++ enz ++ (if c.dir then "" else "/nondir")
                 ++ "/s" ++ toString nsites ++ "f" ++ toString expected.length
-                ++ (if c.g.oh == 0 then "/blunt" else "") ++ (if coincident then "/coincident" else "") ++ (if lettersOnly then "" else "/nonletters") ++ (if orderDiffers then " order-differs" else "") ++ (if stepDrift then " step-drift" else "")
+                ++ (if c.g.oh == 0 then "/blunt" else "") ++ (if coincident then "/coincident" else "")
+                ++ (if lettersOnly then "" else "/nonletters") ++ (if tieAlt then "/tie-alt" else "")
+                ++ (if orderDiffers then " order-differs" else "") ++ (if stepDrift then " step-drift" else "")
     { corr := corr, judge := if inDom then some j else none, cls := cls,
       detail := if corr && (j || !inDom) then "" else
-        "model: " ++ lineOf m ++ " | spec: " ++ encFragments expected }
+        "model: " ++ lineOf m ++ " | spec: " ++ encFragments expected ++
+          (if coincident then " | other tie reading: " ++ encFragments (alt c.circ) else "") }
 
 def driver : PropDriver := { render, judge }
 end PolyVerif.Driver.C10
